@@ -228,8 +228,20 @@ def pool(slot):
     }[kind]
 
 
-def make(choices):
-    """choices: dict slot -> pool index (non-default slots only) -> problem spec"""
+NUMERIC = ("n", "c", "m")
+
+
+def mentions(x, names):
+    if isinstance(x, tuple):
+        if len(x) >= 2 and x[0] == "f" and x[1] in names:
+            return True
+        return any(mentions(y, names) for y in x)
+    return False
+
+
+def make(choices, variant=None):
+    """choices: dict slot -> pool index (non-default slots only) -> problem spec.
+    variant "bool": the same universe without the numeric fluents n, c, m."""
     ch = {s: pool(s)[i][0] for s, i in choices.items()}
     undef = ch.get("undef")
     fluents = [
@@ -289,6 +301,9 @@ def make(choices):
     }
     if not _uses_ifun(ps):
         ps["ifuns"] = ()
+    if variant == "bool":
+        ps["fluents"] = tuple(f for f in ps["fluents"] if f[0] not in NUMERIC)
+        ps["init"] = tuple(i for i in ps["init"] if i[0][1] not in NUMERIC)
     return ps
 
 
@@ -302,17 +317,23 @@ def _uses_ifun(x):
     return False
 
 
-def instances(level, slots=None, core_only=False):
+def instances(level, slots=None, core_only=False, variant=None):
     """All instances with exactly `level` deviating slots among `slots`."""
     slots = list(slots if slots is not None else BASE_SLOTS)
     for combo in combinations(slots, level):
         idxs = []
         for sname in combo:
             pl = pool(sname)
-            idxs.append([i for i, (_x, core) in enumerate(pl) if core or not core_only])
+            idxs.append(
+                [
+                    i
+                    for i, (x, core) in enumerate(pl)
+                    if (core or not core_only) and not (variant == "bool" and mentions(x, NUMERIC))
+                ]
+            )
         for pick in product(*idxs):
             cid = tuple(zip(combo, pick))
-            yield cid, make(dict(cid))
+            yield cid, make(dict(cid), variant)
 
 
 def plan(tier, slots=None, extra_full=()):
